@@ -27,7 +27,7 @@ def build_runner(profile="dev"):
     except OSError:
         pass
     env = dict(os.environ, CARGO_NET_OFFLINE="true", CARGO_TARGET_DIR=TARGET)
-    env.pop("RUSTFLAGS", None)
+    env["RUSTFLAGS"] = "--cfg rigetti_quil_rs_verif"       # verification hooks (add-only observation points)
     cmd = ["cargo", "build", "--offline", "--quiet"] + (["--release"] if profile == "release" else [])
     import fcntl
     os.makedirs(CACHE, exist_ok=True)
